@@ -177,6 +177,16 @@ class Check:
         self.results.extend(out)
         return out
 
+    def run_kani(self, harnesses):
+        """Kani kernels (thorough tiers): results are merged like scenario results; evidence lists them."""
+        from props import kanirun
+        rs = kanirun.run(self.prop, harnesses)
+        self.results.extend(rs)
+        self.extra_evidence["kani_harnesses"] = [dict(harness=r.name, verdict=("FAILED" if r.violations else "inconclusive" if (r.fault or r.inconclusive) else "SUCCESSFUL"),
+                                                      seconds=r.extra.get("kani_seconds")) for r in rs]
+        self.extra_evidence["kani"] = "cargo kani 0.68 / CBMC 6.11 (cadical) on /verif/kani (path dependency on the current tree, feature verif); unwinding assertions on"
+        return rs
+
     # ------------------------------------------------------------------ verdict
     def finish(self, level="model_checking", rule="", assumptions=(), bounds=None, functions_note=None, explanation=None):
         known = load_known()
